@@ -3,6 +3,7 @@ package main
 import (
 	"fmt"
 	"sort"
+	"strconv"
 	"strings"
 
 	"golang.org/x/tools/go/ssa"
@@ -19,6 +20,8 @@ type helperShape struct {
 	MustConsts   []string // constant values (as printed by constString) that must occur
 	MustFields   []string // field names that must be read
 	NoTypeAssert bool
+	OnlyConsts   []string // when set: no string constant outside this list (numbers/bools/nil ignored)
+	MustCommaOk  bool     // the answer rests on a comma-ok map lookup (presence, not value)
 	Why          string // what dependent rules assume
 }
 
@@ -61,6 +64,32 @@ func ruleHelperShape(c *Ctx, r *Report, clause string, hs helperShape) {
 			}
 		}
 	})
+	if len(hs.OnlyConsts) > 0 && viol == "" {
+		okc := map[string]bool{}
+		for _, k := range hs.OnlyConsts {
+			okc[k] = true
+		}
+		for k := range consts {
+			if okc[k] || k == "nil" || k == "true" || k == "false" {
+				continue
+			}
+			if _, err := strconv.ParseFloat(k, 64); err == nil {
+				continue
+			}
+			viol = fmt.Sprintf("%s now also depends on the constant %q; the rules that rely on it assume: %s", hs.Fn, k, hs.Why)
+		}
+	}
+	if hs.MustCommaOk && viol == "" {
+		found := false
+		allInstrs(fi.SSA, true, func(_ *ssa.Function, _ *ssa.BasicBlock, _ int, ins ssa.Instruction) {
+			if lk, ok := ins.(*ssa.Lookup); ok && lk.CommaOk {
+				found = true
+			}
+		})
+		if !found {
+			viol = fmt.Sprintf("%s no longer decides by a comma-ok lookup (key present) but by the looked-up value; the rules that rely on it assume: %s", hs.Fn, hs.Why)
+		}
+	}
 	var missing []string
 	for _, k := range hs.MustConsts {
 		if !consts[k] {
